@@ -41,7 +41,7 @@ func runC08(c *Ctx) {
 		"C08.3 in every decoder (Write) a failed cryptobyte read leaves with a non-nil error. " +
 		"C08.4 every field the encoder reads is restored by the decoder, except the documented normalisations. " +
 		"C08.5 every in-module call site that lets an extension encode itself hands it a freshly allocated zeroed buffer (the must-be-zero bytes rely on it). " +
-		"C08.6 decoders map GREASE code points to the placeholder exactly for the lists ApplyPreset re-GREASEs."
+		"C08.6 decoders map GREASE code points to the placeholder exactly for the lists ApplyPreset re-GREASEs. C08.7 each decoder's cryptobyte parse grammar (prefix and element widths) equals the layout derived from its encoder."
 	r.NotDecided = "re-encoding equality for concrete field values; contents of must-be-zero bytes when an external caller passes a dirty buffer to the exported Read"
 	exts := tlsExtensions(c)
 	r.Count("tls_extension_implementations", len(exts))
@@ -58,6 +58,7 @@ func runC08(c *Ctx) {
 	c08Symmetry(c, "C08.4", exts)
 	c08FreshBuffer(c, "C08.5")
 	c08UnGrease(c, "C08.6", exts)
+	grammarRule(c, "C08.7", exts)
 }
 
 // c08Registry parses ExtensionFromID's switch: case constants -> returned literal type.
